@@ -64,6 +64,19 @@ var guardSpecs = []gspec{
 		atomOrder: []string{"pool.blocksManager.LastBlockTimestamp", "pool.settings.ValidationTimestamp", "transaction.Timestamp"},
 	},
 	{
+		file: "validatornode/application/verification/utxos_registry.go", fn: "UpdateUtxos", lean: "updateUtxosGuards",
+		doc: "`(*UtxosRegistry).UpdateUtxos`: the conditions over counts, values and income flags it tests, in source order (a transaction " +
+			"creates outputs; the input's index is within the slots; a slot is still useful; the owner's list is empty)",
+		atoms: map[string]gvar{"len(transaction.Outputs())": {"outputsCount", "Int"},
+			"transaction.Outputs()[0].InitialValue()": {"firstInitialValue", "UInt64"}, "transaction.Outputs()[0].IsYielding()": {"firstIsYielding", "Bool"},
+			"int(input.OutputIndex())": {"inputIndex", "Int"}, "len(utxosForInputTransactionId)": {"slotsCount", "Int"},
+			"output != nil": {"outputPresent", "Bool"}, "output.InitialValue()": {"initialValue", "UInt64"}, "output.IsYielding()": {"isYielding", "Bool"},
+			"len(utxosForUtxoAddress)": {"addressListLength", "Int"}},
+		atomOrder: []string{"len(transaction.Outputs())", "transaction.Outputs()[0].InitialValue()", "transaction.Outputs()[0].IsYielding()",
+			"int(input.OutputIndex())", "len(utxosForInputTransactionId)", "output != nil", "output.InitialValue()", "output.IsYielding()",
+			"len(utxosForUtxoAddress)"},
+	},
+	{
 		file: "validatornode/application/verification/blockchain.go", fn: "Update", lean: "updateGuards",
 		doc: "`(*Blockchain).Update`: the integer conditions of the fork choice, in source order (host is a candidate, all-forks fallback, " +
 			"shortest / longest bookkeeping, majority threshold, longest filter, oldest recipient, is-different, blocks to confirm); " +
@@ -72,6 +85,48 @@ var guardSpecs = []gspec{
 			"len(blocks)": {"blocksLength", "Int"}, "len(neighbors)": {"neighborsCount", "Int"}, "len(selectedBlocks)": {"selectedLength", "Int"}},
 		atomOrder: []string{"len(hostBlocks)", "len(blocksByTarget)", "len(blocks)", "len(neighbors)", "len(selectedBlocks)"},
 	},
+}
+
+// akey renders an expression as the text the specs use for atoms: selectors, calls with their arguments, indexing by a
+// literal, comparison with nil, conversions
+func akey(e ast.Expr) string {
+	switch x := e.(type) {
+	case *ast.Ident:
+		return x.Name
+	case *ast.BasicLit:
+		return x.Value
+	case *ast.ParenExpr:
+		return akey(x.X)
+	case *ast.SelectorExpr:
+		if k := akey(x.X); k != "" {
+			return k + "." + x.Sel.Name
+		}
+	case *ast.CallExpr:
+		f := akey(x.Fun)
+		if f == "" {
+			return ""
+		}
+		var as []string
+		for _, a := range x.Args {
+			k := akey(a)
+			if k == "" {
+				return ""
+			}
+			as = append(as, k)
+		}
+		return f + "(" + strings.Join(as, ", ") + ")"
+	case *ast.IndexExpr:
+		if k, i := akey(x.X), akey(x.Index); k != "" && i != "" {
+			return k + "[" + i + "]"
+		}
+	case *ast.BinaryExpr:
+		if id, ok := x.Y.(*ast.Ident); ok && id.Name == "nil" && (x.Op == token.NEQ || x.Op == token.EQL) {
+			if k := akey(x.X); k != "" {
+				return k + " " + x.Op.String() + " nil"
+			}
+		}
+	}
+	return ""
 }
 
 type gtr struct {
@@ -88,6 +143,13 @@ type gtr struct {
 
 // gexpr translates an integer / boolean expression; ok=false when a leaf is not an integer value of the spec
 func (g *gtr) gexpr(e ast.Expr) (s string, typ string, ok bool) {
+	// a whole expression named in the spec is read as one input (`output != nil`, `int(input.OutputIndex())`, …)
+	if k := akey(e); k != "" {
+		if a, found := g.spec.atoms[k]; found {
+			g.usedAtom[k] = true
+			return a.name, a.typ, true
+		}
+	}
 	switch x := e.(type) {
 	case *ast.ParenExpr:
 		s, typ, ok = g.gexpr(x.X)
